@@ -173,6 +173,10 @@ def customCatalogue (name : String) (v : Val) : Except Err Val :=
       | .str s => if s.length ≤ 5 then .ok v else .error .value
       | .list xs => if xs.length ≤ 5 then .ok v else .error .value
       | v => .ok v
+  | "small" => match v with                      -- at most 2 items / entries
+      | .list xs => if xs.length ≤ 2 then .ok v else .error .value
+      | .dict kvs => if kvs.length ≤ 2 then .ok v else .error .value
+      | v => .ok v
   | _ => .ok v
 
 def lookupTable {α β} [BEq α] (tbl : List (α × β)) (k : α) : Option β :=
